@@ -56,9 +56,36 @@ func scSealCase(s scSpec, pieces [][]byte, rng []byte, oneshot bool) Case {
 		"pieces": blist(pieces), "rng": hx(rng), "oneshot": b01(oneshot)}}
 }
 
+func genScColliding(h *H) {
+	// recipient lists with colliding identifiers: a symmetric identifier equal to a box recipient's key
+	// identifier, or two equal identifiers — refused, or at least the box recipient stays unnamed
+	for i := 0; i < 6; i++ {
+		s := h.randScSpec(1+h.rng.Intn(2), 1+h.rng.Intn(2))
+		why := "a symmetric-key identifier equals a box recipient's public key"
+		switch i % 3 {
+		case 0:
+			s.symid[0] = boxPk(s.bsk[len(s.bsk)-1])
+		case 1:
+			s.symid[len(s.symid)-1] = boxPk(s.bsk[0])
+			if i == 4 {
+				s.signer = nil
+			}
+		default:
+			s.symk = append(s.symk, h.rng.Bytes(32))
+			s.symid = append(s.symid, s.symid[0])
+			why = "two symmetric recipients share an identifier"
+		}
+		c := scSealCase(s, [][]byte{h.rng.Bytes(20)}, sealRng(h.rng, len(s.bsk)+len(s.symk)), i%2 == 0)
+		c.A["expect"], c.A["why"] = "refuse-or-hide", why
+		h.tag("rcpts:colliding-identifiers")
+		h.Run(c)
+	}
+}
+
 func genScRoundtrip(h *H) {
 	thorough := h.tier == "thorough"
 	cnt := 0
+	genScColliding(h)
 	for nb := 0; nb <= 3; nb++ {
 		for ns := 0; ns <= 3; ns++ {
 			if nb+ns == 0 {
@@ -71,7 +98,7 @@ func genScRoundtrip(h *H) {
 				} else if s.signer == nil {
 					s.signer = h.randSigKey()
 				}
-				msg := h.rng.Bytes(h.pickLen(cnt % 14))
+				msg := h.content(h.pickLen(cnt % 14))
 				cnt++
 				h.tag("rcpts:" + strconv.Itoa(nb) + "box+" + strconv.Itoa(ns) + "sym")
 				h.Run(scSealCase(s, [][]byte{msg}, sealRng(h.rng, nb+ns), true))
@@ -92,7 +119,7 @@ func genScRoundtrip(h *H) {
 			nb = 10 + h.rng.Intn(20)
 		}
 		s := h.randScSpec(nb, ns)
-		h.Run(scSealCase(s, [][]byte{h.rng.Bytes(h.pickLen(i % 20))}, sealRng(h.rng, nb+ns), i%2 == 0))
+		h.Run(scSealCase(s, [][]byte{h.content(h.pickLen(i % 20))}, sealRng(h.rng, nb+ns), i%2 == 0))
 	}
 	ks := []int{1}
 	if thorough {
